@@ -9,8 +9,13 @@ the model ignores -- that the verdict is the same for every `cfg` is part of wha
 
 observe(): creates the `_CountingAttr`s one after the other (first failure = outcome), builds the base
 classes and the plain class with `type()`, snapshots it, makes the decorator, applies it as a function call and,
-if that raises, compares the class with the snapshot (keys, key order, identity of every value of `vars(cls)`,
-content and identity of `__annotations__`, the resolved `__setattr__`, `__bases__`).
+if that raises, compares the class with the snapshot: keys, key order, identity of every value of `vars(cls)`,
+content and identity of `__annotations__`, the resolved `__setattr__`, `__bases__`; (a) the *state* of every value
+(for `attr.ib()` objects each slot -- `_default`, `_validator`, `type`, `metadata`, `counter`, ... --, the `these`
+dict, and the user containers handed to attrs: metadata dicts, validator / on_setattr lists, make_class's class_body);
+(b) behaviourally: a valid decorator (same front-end, kw_only=True, nothing else) is then applied to the same class and
+to a fresh identical class that never saw the failed attempt, and the two outcomes (exception kind, or fields, own
+dunders, __init__ signature, annotations, construction / repr / eq / hash / assignment probes) must be identical.
 """
 from __future__ import annotations
 
@@ -74,7 +79,7 @@ CLASS_SPACE = {
 }
 CFG_DEFAULT = {"badHash": 0, "hookKind": "fn", "explicit": False, "baseApi": "attrS", "baseSlots": False,
                "mid": "none", "hiddenFrozen": False, "collectByMro": False, "frozenAlias": False,
-               "fieldApi": "ib", "emptyBase": False}
+               "fieldApi": "ib", "emptyBase": False, "containers": False}
 NAMES = ["a", "b", "c", "d", "e"]
 BASE_NAMES = ["p", "q", "r"]
 
@@ -106,21 +111,22 @@ LEVEL_TEXT = (
     "arbitrary option combinations and field / inherited-attribute lists of any length: C15_defError_flat and "
     "C15_define_fallback (all front-ends are the first failing entry of one check list; define's swallowed "
     "UnannotatedAttributeError never hides or invents an error), C15_first_failing_check_decides, C15_sound (any error "
-    "is the documented type of an applicable rule of the declarative 17-rule table, or of one of two open readings, "
-    "or K15a), C15_complete (every applicable rule is enforced), C15_no_spurious / C15_characterisation (defined iff "
+    "is the documented type of an applicable rule of the declarative 17-rule table, or of one of three open readings"
+    "), C15_complete (every applicable rule is enforced), C15_no_spurious / C15_characterisation (defined iff "
     "nothing applies), C15_table + C15_kinds (each rule alone yields its documented type), C15_order_iff_exists_pair "
     "(the had_default loop raises iff a defaulted positional attribute at i is followed by a mandatory positional one "
     "at j>i), C15_order_via_inheritance, C15_order_rule_kwonly_exempt / _kwonly_class, C15_first_field_error, "
     "C15_checks_before_mutation (any builder whose only patch step is last leaves an arbitrary class dict unchanged when "
     "it raises) and C15_wrap_checks_before_mutation (attrs.wrap is such a builder and its outcome is the check list's), "
     "C15_slots_irrelevant, C15_initFalse_hook_rejected (fix 059f6c6), C15_defaults_documented (T1 tables), "
-    "C15_model_meets_spec, K15a_witness. Tied to /repo by a differential correspondence on two observables: exception "
+    "C15_model_meets_spec, C15_str_needs_some_repr and K15a_repaired (regression of the repaired K15a). Tied to /repo by a differential correspondence on two observables: exception "
     "kind at definition, and the snapshot of vars(cls) (keys, order, identity of values), __annotations__ content, "
     "resolved __setattr__ and __bases__ after a failed decoration. CPython class creation, the staging discipline of "
     "_ClassBuilder on the real class (observed through the snapshot) and decorator-syntax evaluation order are "
-    "observed, not proved. The spec accepts either outcome for two readings the statement leaves open (field-level "
-    "NO_OP on a frozen class; define(on_setattr=hook) on a class whose own __setattr__ hides a frozen base). K15a "
-    "(str=True without a generated __repr__ is rejected although outside the table) is a listed deviation.")
+    "observed, not proved. The spec accepts either outcome for three readings the statement leaves open (field-level "
+    "NO_OP on a frozen class; define(on_setattr=hook) on a class whose own __setattr__ hides a frozen base; "
+    "str=True on a class left without any own __repr__, which attrs's tests assert to be rejected). No listed deviation "
+    "is left: K15a (str=True with an own __repr__ was rejected) is repaired in attrs (fixes/C15).")
 
 
 # ------------------------------------------------------------------------------------------ callables
@@ -262,8 +268,24 @@ def _field_kwargs(f, cfg):
     return kw
 
 
-def _make_field(f, cfg):
+def _validator2(inst, a, v):
+    return None
+
+
+def _make_field(f, cfg, reg=None):
+    """`reg` collects the user containers handed to attrs: (label, object, shallow copy)"""
     kw = _field_kwargs(f, cfg)
+    if cfg.get("containers"):
+        if f["validator"]:
+            kw["validator"] = [_validator, _validator2]
+        kw["metadata"] = {"k": f["name"], "l": [1]}
+    if reg is not None:
+        for k in ("validator", "metadata", "on_setattr", "converter"):
+            v = kw.get(k)
+            if isinstance(v, list):
+                reg.append((f"{k} list of {f['name']}", v, list(v)))
+            elif isinstance(v, dict):
+                reg.append((f"{k} dict of {f['name']}", v, dict(v)))
     if cfg.get("fieldApi", "ib") == "field" and "cmp" not in kw:
         ca = attrs.field(**kw)
     else:
@@ -416,17 +438,90 @@ def _class_kwargs(case, cfg):
     return kw
 
 
-def _snapshot(cls):
-    d = vars(cls)
+_CA = attr._make._CountingAttr
+_CA_SLOTS = tuple(getattr(_CA, "__slots__", ()))
+
+
+_KEEP: list = []      # keeps every object whose id() went into a state alive until the comparison is done
+
+
+def _state(v, depth=0):
+    _KEEP.append(v)
+    return _state1(v, depth)
+
+
+def _state1(v, depth=0):
+    """identity-level state of a value found in the class body / handed to attrs: for `attr.ib()` objects every
+    slot, for containers their items, for factories their parts; leaves by identity"""
+    if isinstance(v, _CA):
+        return ("ca",) + tuple((n, _state(getattr(v, n, "<unset>"), depth + 1)) for n in (_CA_SLOTS or sorted(vars(v))))
+    if depth > 3:
+        return ("obj", id(v))
+    if isinstance(v, dict):
+        return ("dict", id(v), tuple((repr(k), _state(x, depth + 1)) for k, x in v.items()))
+    if isinstance(v, (list, tuple)):
+        return (type(v).__name__, id(v), tuple(_state(x, depth + 1) for x in v))
+    if isinstance(v, attr.Factory):
+        return ("factory", id(v), id(v.factory), v.takes_self)
+    if isinstance(v, (bool, int, str, type(None))):
+        return ("lit", v)
+    return ("obj", id(v))
+
+
+def _state_diff(label, before, after, out):
+    if before == after:
+        return
+    if before[0] == "ca" and after[0] == "ca":
+        for (n, b), (_, a) in zip(before[1:], after[1:]):
+            if a != b:
+                out.add(f"state of {label}.{n}")
+    else:
+        out.add(f"state of {label}")
+
+
+def _snapshot(cls, these=None, reg=()):
+    d = vars(cls) if cls is not None else {}
     items = list(d.items())
     ann = d.get("__annotations__")
-    return {"items": items, "ann": ann, "ann_items": list(ann.items()) if isinstance(ann, dict) else None,
+    if cls is None:
+        return {"state": {}, "these": (list(these.items()), {k: _state(v) for k, v in these.items()}) if these is not None else None,
+                "reg": reg}
+    return {"state": {k: _state(v) for k, v in items},
+            "these": (list(these.items()), {k: _state(v) for k, v in these.items()}) if these is not None else None,
+            "reg": reg,
+            "items": items, "ann": ann, "ann_items": list(ann.items()) if isinstance(ann, dict) else None,
             "setattr": cls.__setattr__, "bases": cls.__bases__, "name": cls.__name__,
             "qualname": cls.__qualname__}
 
 
-def _diff(cls, snap):
+def _diff_state(cls, snap, these, out):
+    """(a) deep state: the objects are the same -- is what they hold the same?"""
+    if cls is not None:
+        for k, v in vars(cls).items():
+            if k in snap["state"]:
+                _state_diff(str(k), snap["state"][k], _state(v), out)
+    if snap["these"] is not None and these is not None:
+        items, st = snap["these"]
+        now = list(these.items())
+        if [k for k, _ in now] != [k for k, _ in items] or any(v is not w for (_, v), (_, w) in zip(now, items)):
+            out.add("these dict")
+        for k, v in now:
+            if k in st:
+                _state_diff(f"these[{k}]", st[k], _state(v), out)
+    for label, obj, copy_ in snap["reg"]:
+        cur = list(obj) if isinstance(obj, list) else dict(obj)
+        same = (len(cur) == len(copy_)) and (
+            all(x is y for x, y in zip(cur, copy_)) if isinstance(obj, list)
+            else list(cur.items()) == list(copy_.items()) and all(cur[k] is copy_[k] for k in cur))
+        if not same:
+            out.add(label)
+
+
+def _diff(cls, snap, these=None):
     out = set()
+    _diff_state(cls, snap, these, out)
+    if cls is None:
+        return sorted(out)
     now = list(vars(cls).items())
     before = snap["items"]
     bk = {k: v for k, v in before}
@@ -474,32 +569,117 @@ def _observe_foreign(case):
     return {"exc": None, "touched": []}
 
 
+_DUNDERS = ("__init__", "__attrs_init__", "__repr__", "__str__", "__eq__", "__ne__", "__lt__", "__le__", "__gt__",
+            "__ge__", "__hash__", "__setattr__", "__delattr__", "__getstate__", "__setstate__", "__match_args__",
+            "__slots__", "__attrs_own_setattr__", "__weakref__", "__dict__")
+
+
+def _probe(thunk):
+    try:
+        v = thunk()
+    except Exception as e:  # noqa: BLE001
+        return "exc:" + common.exc_kind(e)
+    return v
+
+
+def _fingerprint(cls):
+    """what a user can tell about a defined class: fields, generated methods, signature, behaviour"""
+    import inspect
+    fs = []
+    for a in attr.fields(cls):
+        d = a.default
+        on = a.on_setattr
+        fs.append((a.name, "NOTHING" if d is NOTHING else type(d).__name__, a.init, a.kw_only, bool(a.eq), bool(a.order),
+                   a.hash, repr(a.type), a.inherited, a.alias, "none" if on is None else ("noop" if on is setters.NO_OP else "hook"),
+                   a.validator is not None, a.converter is not None, sorted(a.metadata)))
+    own = sorted(k for k in vars(cls) if k in _DUNDERS)
+    vals = {k: repr(vars(cls)[k]) for k in ("__slots__", "__match_args__", "__attrs_own_setattr__") if k in vars(cls)}
+    sig = _probe(lambda: str(inspect.signature(cls.__init__)))
+    kwargs = {a.alias: 1 for a in attr.fields(cls) if a.init}
+
+    def mk():
+        return cls(**kwargs)
+    inst = _probe(mk)
+    beh = {"make": inst if isinstance(inst, str) else "ok"}
+    if not isinstance(inst, str):
+        beh["repr"] = _probe(lambda: repr(inst))
+        beh["eq"] = _probe(lambda: bool(inst == mk()))
+        beh["hash"] = _probe(lambda: (hash(inst), "ok")[1])
+        names = [a.name for a in attr.fields(cls)]
+        if names:
+            beh["set"] = _probe(lambda: (setattr(inst, names[0], 2), "ok")[1])
+    return {"fields": fs, "own": own, "vals": vals, "sig": sig, "beh": beh,
+            "ann": repr(vars(cls).get("__annotations__"))}
+
+
+def _build(case, cfg, reg=None):
+    """the class body runs: fields are made one after the other; returns (cas | exception, ...)"""
+    cas = {}
+    for f in case["fields"]:
+        if f["bare"]:
+            continue
+        cas[f["name"]] = _make_field(f, cfg, reg)
+    bases = _bases(case, cfg)
+    ns, these = _body(case, cas)
+    return bases, ns, these
+
+
+def _rescue(case, cls, bases, ns, these):
+    """apply a *valid* decorator (same front-end family, everything keyword-only, nothing else asked for) and
+    describe the outcome: the exception kind, or the fingerprint of the class"""
+    api = case["api"]
+    try:
+        if api == "makeClass":
+            res = attr.make_class("C", these, bases=bases, class_body=ns, kw_only=True)
+        elif api == "define":
+            res = attrs.define(kw_only=True, these=these)(cls)
+        else:
+            res = attr.s(kw_only=True, these=these)(cls)
+    except Exception as e:  # noqa: BLE001
+        return {"exc": _kind(e)}
+    return _probe(lambda: _fingerprint(res))
+
+
+def _retry_differs(case, cfg, cls, bases, ns, these):
+    """(b) after the failed decoration a valid decorator is applied to the same class, and to a fresh identical
+    class that never saw the failed attempt: the two outcomes must be indistinguishable"""
+    got = _rescue(case, cls, bases, ns, these)
+    bases2, ns2, these2 = _build(case, cfg)
+    cls2 = None if case["api"] == "makeClass" else type("C", bases2, ns2)
+    want = _rescue(case, cls2, bases2, ns2, these2)
+    if got == want:
+        return []
+    if not (isinstance(got, dict) and isinstance(want, dict)):
+        return ["retry differs"]
+    return ["retry differs: " + ",".join(sorted(k for k in set(got) | set(want) if got.get(k) != want.get(k)))]
+
+
 def _observe(case):
     if "foreign" in case:
         return _observe_foreign(case)
     cfg = case.get("cfg") or {}
     # 1. the class body runs: fields are made one after the other
-    cas = {}
-    for f in case["fields"]:
-        if f["bare"]:
-            continue
-        try:
-            cas[f["name"]] = _make_field(f, cfg)
-        except Exception as e:  # noqa: BLE001
-            return {"exc": _kind(e), "touched": []}
-    bases = _bases(case, cfg)
-    ns, these = _body(case, cas)
+    reg = []
+    del _KEEP[:]
+    try:
+        bases, ns, these = _build(case, cfg, reg)
+    except Exception as e:  # noqa: BLE001
+        return {"exc": _kind(e), "touched": []}
+    if case["api"] == "makeClass":
+        reg.append(("class_body dict", ns, dict(ns)))
     kw = _class_kwargs(case, cfg)
     api = case["api"]
     if api == "makeClass":
-        # no class exists before the call: nothing to compare after a failure
+        # no class exists before the call; the caller's dict, the attr.ib() objects in it and the containers
+        # handed over are what can be compared after a failure
+        snap = _snapshot(None, these, reg)
         try:
             attr.make_class("C", these, bases=bases, class_body=ns, **kw)
         except Exception as e:  # noqa: BLE001
-            return {"exc": _kind(e), "touched": []}
+            return {"exc": _kind(e), "touched": _diff(None, snap, these) + _retry_differs(case, cfg, None, bases, ns, these)}
         return {"exc": None, "touched": []}
     cls = type("C", bases, ns)
-    snap = _snapshot(cls)
+    snap = _snapshot(cls, these, reg)
     if these is not None:
         kw["these"] = these
     try:
@@ -514,7 +694,7 @@ def _observe(case):
             deco = attr.s(**kw)
         deco(cls)
     except Exception as e:  # noqa: BLE001
-        return {"exc": _kind(e), "touched": _diff(cls, snap)}
+        return {"exc": _kind(e), "touched": _diff(cls, snap, these) + _retry_differs(case, cfg, cls, bases, ns, these)}
     return {"exc": None, "touched": []}
 
 
@@ -740,6 +920,7 @@ def rand_cfg(rng):
         "frozenAlias": rng.random() < 0.5,
         "fieldApi": rng.choice(["ib", "field"]),
         "emptyBase": rng.random() < 0.2,
+        "containers": rng.random() < 0.4,
     }
     return cfg
 
@@ -860,6 +1041,17 @@ def rule_grid():
             yield M([A(annotated=True), Bf()])
             yield M([A(annotated=True, dflt=True), Bf()])
             yield M([A(bare=True, annotated=True, dflt=True), Bf(), fld("c", dflt=True)], frozen=True, ownSetattr=True)
+        # annotated attr.ib()/field() bodies (whatever the auto_attribs mode) x rules that fire after the
+        # fields were collected: a failed decoration must not leave anything on the attr.ib() objects
+        late = [dict(cacheHash=True), dict(cacheHash=True, unsafeHash="t", init="f"), dict(hash="bad"),
+                dict(frozen=True, onSetattr="hook"), dict(str=True, repr="f"), dict(kwOnly=False),
+                dict(autoDetect="t", ownSetattr=True, onSetattr="hook"), dict(cacheHash=True, eq="f")]
+        for o in late:
+            yield M([A(annotated=True), Bf(annotated=True, dflt=True)], **o)
+            yield M([A(annotated=True, validator=True), Bf(annotated=True, factory=True, converter=True)],
+                    cfg={"containers": True}, **o)
+            yield M([A(annotated=True, onSetattr="hook"), Bf(annotated=True, dflt=True)], **dict(o, frozen=True))
+            yield M([A(annotated=True, dflt=True), Bf(annotated=True)], **o)
         # class-level eq/order/cmp
         for cmp_, eq, order in itertools.product(F3, F3, ["unset", "none", "t", "f"]):
             yield M([A(**ann)], cmp=cmp_, eq=eq, order=order)
@@ -1000,7 +1192,7 @@ def _real_base_attrs(parent, by_mro):
     out = []
     if by_mro:
         for b in reversed(mro):
-            for a in getattr(b, "__attrs_attrs__", []):
+            for a in b.__dict__.get("__attrs_attrs__", ()):      # the MRO collector reads each class's own tuple
                 if not a.inherited:
                     out.append(a)
         seen, filt = set(), []
